@@ -1001,6 +1001,22 @@ func (g *Gen) moduleAct() {
 	if m.Paused {
 		g.submit(Op{K: "mod", Mod: &ModOp{Label: g.label("m"), T: "start", Ctx: ctxRefOf("mod-"+m.Label, 0), Consumer: m.Consumer}}, 1+g.pick(3))
 	}
+	if m.Repeated && len(provs) >= 2 && m.Module == "" && g.mrng.Float64() < 0.35 {
+		// threshold squeeze: while a batch is in flight the module changes the response threshold, and one of the named
+		// providers drops out, so that the next batch's eligible set lies between the old and the new threshold
+		ref := ctxRefOf("mod-"+m.Label, 0)
+		newThr := uint32(1 + g.mrng.Intn(len(provs)))
+		if newThr == m.Threshold {
+			newThr = m.Threshold%uint32(len(provs)) + 1
+		}
+		d := 1 + g.mrng.Intn(int(timeout))
+		g.submit(Op{K: "mod", Mod: &ModOp{Label: g.label("m"), T: "update", Ctx: ref, Consumer: m.Consumer, Threshold: newThr}}, d)
+		b := binds[g.mrng.Intn(len(binds))]
+		if oi := g.acctIndex(b.Owner); oi >= 0 {
+			g.submit(g.tx(oi, MsgOp{T: "disable", Svc: svc, Prov: refOfAddr(g, b.Provider)}), d+g.mrng.Intn(2))
+		}
+		g.x.stats.inc("targeted_threshold_squeeze")
+	}
 }
 
 // burstAct: several contexts of one consumer with a tight budget become due at the same height, so that the order
